@@ -3,6 +3,7 @@ mod c02;
 mod c06;
 mod c07;
 mod c09;
+mod c10;
 mod eng;
 mod gen;
 mod mdoc;
@@ -59,6 +60,7 @@ fn main() {
         "C06" => c06::run(tier),
         "C07" => c07::run(tier),
         "C09" => c09::run(tier),
+        "C10" => c10::run(tier),
         x => {
             eprintln!("unknown check {}", x);
             2
